@@ -467,6 +467,21 @@ def run_cases(cmd, cases, timeout=300, workers=None, env=None, chunk=None, crash
     return results
 
 
+def run_replay_conc(hcmd, ops, timeout=120, env=None):
+    """Re-execute a recorded schedule of a concurrent harness. When the schedule no longer fits the
+    tree (`end replay-diverged`: other threads are enabled than when it was recorded) follow it as far
+    as it applies and continue non-preemptively (`sched prefix`), then pin the schedule actually taken
+    so that the model can replay it. Returns (result, ops actually used)."""
+    a = run_one(hcmd, ops, timeout=timeout, env=env)
+    if not a["crash"] and any(l.startswith("end replay-diverged") for l in a["out"]):
+        ops2 = [("sched prefix " + l[len("sched replay "):]) if l.startswith("sched replay ") else l for l in ops]
+        a = run_one(hcmd, ops2, timeout=timeout, env=env)
+        sched = next((l[len("schedule "):] for l in a["out"] if l.startswith("schedule ")), "")
+        ops = [("sched replay " + sched) if l.startswith("sched prefix ") else l for l in ops2]
+        a = run_one(hcmd, ops, timeout=timeout, env=env)
+    return a, ops
+
+
 def drop_skipped(cases, impl):
     """remove the cases run_cases did not run (crash storm); returns (cases, impl, number dropped)"""
     keep = [i for i, r in enumerate(impl) if not r.get("skipped")]
